@@ -220,6 +220,10 @@ def run(check, repo: Repo) -> None:
                                 and unparse(d.left.value).endswith(".shape") and is_const(d.left.slice, 1) \
                                 and "first" not in unparse(d.left):
                             ok = True
+            for lp_ in [n for n in ast.walk(fn) if isinstance(n, ast.For)]:
+                tests_ = [i for i, st_ in enumerate(lp_.body) if isinstance(st_, ast.If) and any(isinstance(x, ast.Raise) for x in st_.body) and ".shape[1]" in unparse(st_.test)]
+                if tests_ and any(isinstance(x, ast.Continue) for st_ in lp_.body[:tests_[-1]] for x in ast.walk(st_)):
+                    ok = False  # an early `continue` exempts the items it selects from the test just like a conjunction does
             layered = False
             if not ok:
                 # layered defence: the inference validator only pre-screens; when every caller then installs the same data through the `data` setter (whose
